@@ -566,7 +566,7 @@ def unit_vote(U):
             "C09.bounded.vote",
             "inferred dialect of a window mixing two values of one dialect key == per key the majority weighted by each line's attribute count "
             "(not its field count), ties to the value seen first; order == first-seen concatenation of keys",
-            "%d dialect pairs (trailing, repeated, 3 separators, 4 styles incl. gff3<->gtf) x all sequences of <= %d lines over 2 values x weights %s "
+            "%d dialect pairs (trailing, repeated, 3 separators, 4 styles incl. gff3<->gtf) x all sequences of <= %d lines (length 4: first line in the first value, at most one empty column) over 2 values x weights %s "
             "(repeated keys spelled with more fields than attributes) + empty attribute column; DataIterator list/file/generator/string, create_db on every 11th/97th; "
             "%d key assertions withheld as unobservable" % (len(axis_pairs(U.thorough)), K, "1,2,3,2(4 fields),3(6 fields)" if U.thorough else "1,2,3,2(4 fields)", nskipped),
             cases, fails, exhaustive=True, distinct=distinct)
